@@ -15,6 +15,12 @@ def engine_prop(test, quick=800, thorough=60000):
 PURE_ASSUMPTIONS = ["the reference evaluator/model in harness/refmodel is an independent reading of the property statement; inputs come from the stated generator grammar only"]
 
 PROPS = {
+    "C12": {"level": "exploration", "assumptions": ["the informer map is scripted (creation / sync / handler registration outcomes are chosen by the scenario); real informers, list-watch and event delivery by client-go are not executed", "the concurrent part relies on the Go race detector and final-state checks; interleavings are sampled, not enumerated"],
+            "parts": [
+                {"name": "seq", "vehicle": "overlay", "pkg": "internal/dynamiccache", "test": "TestC12Sequences", "quick_checks": 20000, "thorough_checks": 800000, "thorough_shards": 16},
+                {"name": "exhaustive", "vehicle": "overlay", "pkg": "internal/dynamiccache", "test": "TestC12Exhaustive", "quick_checks": 1, "quick_scale": 0, "thorough_scale": 2, "replayable": False},
+                {"name": "race", "vehicle": "overlay", "pkg": "internal/dynamiccache", "race": True, "test": "TestC12Race", "quick_checks": 300, "thorough_checks": 20000, "thorough_shards": 8, "replayable": False},
+            ]},
     "C17": {"level": "exploration", "assumptions": PURE_ASSUMPTIONS,
             "parts": [{"name": "probing", "test": "TestC17", "quick_checks": 20000, "thorough_checks": 2000000, "thorough_shards": 16}]},
     "C04": engine_prop("TestC04"),
